@@ -2,13 +2,14 @@
    kind = property*100 + sub-model.  [run] = what the model says the implementation must
    output on this input; [mon] = the property's monitor applied to the implementation's own
    observed output. *)
-From RainV Require Import Lib Tier Geometry SectionIO Meta Paths Wire Stree AddrList Cache Tracker Announcer Picker PickerWs Ram InfoDl Magnet Admission PieceDl Leech MetaSess Life Registry Resume Priv Mse Owner ConnLimit.
+From RainV Require Import Lib Tier Geometry SectionIO Meta Paths Wire Stree AddrList Cache Tracker Announcer Picker PickerWs Edges WriteGate Ram InfoDl Magnet Admission PieceDl Leech MetaSess Life Registry Resume Priv Mse Owner ConnLimit.
 
 Definition run (kind : Z) (inp : list Z) : list Z :=
   match kind with
   | 101 => run_leech true inp
   | 102 => run_piecedl inp
   | 103 => run_verifier inp
+  | 104 => run_stopwrite inp
   | 105 => run_webseed inp
   | 201 => run_new_pieces inp
   | 202 => run_calc_blocks inp
@@ -30,6 +31,7 @@ Definition run (kind : Z) (inp : list Z) : list Z :=
   | 901 => run_picker inp
   | 902 => tags_picker inp
   | 903 => run_picker_ws inp
+  | 905 => run_edges inp
   | 904 => tags_picker_ws inp
   | 1101 => run_writer inp
   | 1102 => run_reader inp
@@ -73,6 +75,7 @@ Definition mon (kind : Z) (inp obs : list Z) : bool :=
   | 101 => list_eqb_Z (run_leech true inp) obs
   | 102 => list_eqb_Z (run_piecedl inp) obs
   | 103 => list_eqb_Z (run_verifier inp) obs
+  | 104 => mon_stopwrite inp obs
   | 105 => list_eqb_Z (run_webseed inp) obs
   | 201 => mon_new_pieces inp obs
   | 202 => mon_calc_blocks inp obs
@@ -93,6 +96,7 @@ Definition mon (kind : Z) (inp obs : list Z) : bool :=
   | 704 => list_eqb_Z (run_str_funcs inp) obs
   | 901 => list_eqb_Z (run_picker inp) obs
   | 903 => list_eqb_Z (run_picker_ws inp) obs
+  | 905 => list_eqb_Z (run_edges inp) obs
   | 1101 => mon_writer inp obs
   | 1102 => mon_reader inp obs
   | 1103 => list_eqb_Z (run_reader inp) obs
